@@ -166,15 +166,6 @@ Proof.
     split; [intros k; by rewrite lookup_empty|]. intros _ _ k. set_solver.
 Qed.
 
-Lemma w_union_None x y : w_union x y = None ↔ x = None ∧ y = None.
-Proof. unfold w_union. destruct x, y; simpl; split; try done; by intros []. Qed.
-
-Lemma spec_writes_None a k b ts acc : spec_writes a k b ts acc = None → acc = None.
-Proof.
-  revert b acc. induction ts as [|t rest IH]; intros b acc; simpl; [done|].
-  intros H. apply IH in H. by apply w_union_None in H as [_ ?].
-Qed.
-
 Lemma run_tx_fst b t : (run_tx b t).1 = (step_b (tx_body_end b t) (BOp (OFinalise (t_r t)))).1.
 Proof. unfold run_tx. by destruct (step_b _ _). Qed.
 
@@ -196,7 +187,18 @@ Proof.
   destruct (tx_from (b_j b) (tx_open b t) (t_idx t) (t_r t) (t_body t) T Hr Hc Ha Hi Hb G) as (R & E & T3 & F).
   fold (tx_body_end b t) in E, T3, F.
   exists R. subst b3. rewrite run_tx_fst. split; [|split; [exact T3|exact F]].
-  unfold run_tx. destruct (step_b (tx_body_end b t) (BOp (OFinalise (t_r t)))) as [b3 w]. simpl in *. by subst w.
+  unfold run_tx. destruct (step_b (tx_body_end b t) (BOp (OFinalise (t_r t)))) as [b3 w]. cbn [fst snd] in *. by subst w.
+Qed.
+
+Strategy opaque [run_tx].
+
+Lemma w_union_None x y : w_union x y = None ↔ x = None ∧ y = None.
+Proof. unfold w_union. destruct x, y; simpl; split; try done; by intros []. Qed.
+
+Lemma spec_writes_None a k b ts acc : spec_writes a k b ts acc = None → acc = None.
+Proof.
+  revert b acc. induction ts as [|t rest IH]; intros b acc; cbn [spec_writes]; [done|].
+  intros H. apply IH in H. by apply w_union_None in H as [_ ?].
 Qed.
 
 (* the block theorem, generalised over the accumulated list M *)
@@ -212,12 +214,12 @@ Lemma block_records b M ts :
            ∧ (k ∈ oreads (M' !! a) ↔
               (k ∈ oreads (M !! a) ∨ some_read a k b ts) ∧ owrites (M' !! a) !! k = None).
 Proof.
-  revert b M. induction ts as [|t rest IH]; intros b M T Hok HM; simpl.
+  revert b M. induction ts as [|t rest IH]; intros b M T Hok HM; cbn [run_block block_ok spec_field spec_writes some_read fst snd] in *.
   { split; [done|]. intros a. repeat split; try done; [|by intros [[?|[]] _]].
     intros H. split; [by left|by apply HM]. }
   destruct Hok as (Hr & Hb & G & Hrest).
   destruct (run_tx_step b t T Hr Hb G) as (R & ER & T3 & F).
-  destruct (run_tx b t) as [b3 ret] eqn:Ert. simpl in ER, T3, F, Hrest. subst ret.
+  destruct (run_tx b t) as [b3 ret] eqn:Ert. cbn [fst snd] in *. subst ret.
   assert (HR : ∀ a, odisj (R !! a)).
   { intros a k Hk. destruct (F a) as (_ & _ & _ & Fk). destruct (Fk k) as [-> Hrd].
     apply Hrd in Hk as [_ ->]. unfold st_write. by rewrite N.eqb_refl. }
